@@ -44,7 +44,7 @@ fn main() {
         "C26" => std::process::exit(c26::main(&args)),
         "show" => {
             // show <menu> <k> <index|all>
-            let m = match args.rest[0].as_str() { "args" => progx::Menu::Args, "abstract" => progx::Menu::Abstract, "cycles" => progx::Menu::Cycles, _ => progx::Menu::General };
+            let m = match args.rest[0].as_str() { "args" => progx::Menu::Args, "abstract" => progx::Menu::Abstract, "cycles" => progx::Menu::Cycles, "clientargs" => progx::Menu::ClientArgs, "overlap" => progx::Menu::Overlap, "decls" => progx::Menu::Decls, "pointers" => progx::Menu::Pointers, _ => progx::Menu::General };
             let k: usize = args.rest[1].parse().unwrap();
             let progs = progx::programs(m, k);
             println!("{} programs", progs.len());
